@@ -3,7 +3,7 @@
    definitions at Qops on states captured from the implementation. *)
 From Coq Require Import Reals List Arith Lia Lra.
 From TLV Require Import Base.Shape Base.PyList Base.Tensor Base.Ops Base.RSum Model.Descent
-  Proofs.DescentProofs Proofs.DescentProofsHals Proofs.DescentProofsLink Proofs.DescentProofsOrth.
+  Proofs.DescentProofs Proofs.DescentProofsHals Proofs.DescentProofsLink Proofs.DescentProofsOrth Proofs.DescentProofsNorm Proofs.DescentProofsNN.
 Import ListNotations.
 Open Scope R_scope.
 
@@ -112,6 +112,43 @@ Theorem C07_ls_block_minimises : forall (A Y X Z : list (list R)) (lam : R) (m n
 Proof. exact ls_block_minimises. Qed.
 Print Assumptions C07_ls_block_minimises.
 
+(* parafac(normalize_factors=True).  Replacing the weights and factor k so that every product weight * entry is kept leaves
+   the squared error unchanged (all orders) ... *)
+Theorem C07_cp_sqerr_reweight : forall (X : tensor R) (rank : nat) (w w' : list R) (facs : list (list (list R))) (k : nat) (A' : list (list R)),
+  (k < length (shape X))%nat -> (k < length facs)%nat ->
+  (forall i r : nat, (i < nth k (shape X) 0)%nat -> (r < rank)%nat ->
+     vget Rops w' r * mget Rops A' i r = vget Rops w r * mget Rops (nth k facs nil) i r) ->
+  cp_sqerr Rops X w' (set_nth k A' facs) rank = cp_sqerr Rops X w facs rank.
+Proof. exact cp_sqerr_reweight. Qed.
+Print Assumptions C07_cp_sqerr_reweight.
+
+(* ... hence cp_normalize (weights absorbed into factor 0, then every mode rescaled by its column norms; contract on the
+   norms handed in: divisor non-zero, equal to the multiplier except on an all-zero column whose multiplier is 0) does not change
+   the objective, for every order, rank and state *)
+Theorem C07_cp_normalize_invariant : forall (X : tensor R) (rank : nat) (norms : nat -> cpstate -> list R * list R) (st : list R * list mat),
+  (0 < length (shape X))%nat -> length (snd st) = length (shape X) ->
+  normalize_ok X rank norms (seq 0 (length (shape X))) (cp_absorb0 Rops (shape X) rank st) ->
+  sq X rank (cp_normalize_m Rops (shape X) rank norms st) = sq X rank st.
+Proof. exact cp_normalize_invariant. Qed.
+Print Assumptions C07_cp_normalize_invariant.
+
+(* one iteration 'blocks with the current weights, then cp_normalize' does not increase ||X - [[w; A..]]||^2 (l2_reg = 0),
+   and the objective values after 0,1,2,... such iterations are non-increasing *)
+Theorem C07_cp_sweep_norm_descent : forall (X : tensor R) (rank : nat) (norms : nat -> cpstate -> list R * list R)
+  (solve : list (list R) -> list (list R) -> list (list R)) (modes : list nat) (st : cpstate),
+  sweep_norm_ok X rank norms solve modes st ->
+  sq X rank (cp_sweep_norm Rops solve X 0 rank norms modes st) <= sq X rank st.
+Proof. exact cp_sweep_norm_descent. Qed.
+Print Assumptions C07_cp_sweep_norm_descent.
+
+Theorem C07_cp_norm_history_monotone : forall (X : tensor R) (rank : nat) (norms : nat -> cpstate -> list R * list R)
+  (solve : list (list R) -> list (list R) -> list (list R)) (modes : list nat) (st : cpstate) (n : nat),
+  run_ok cpstate (cp_sweep_norm Rops solve X 0 rank norms modes) (sweep_norm_ok X rank norms solve modes) n st ->
+  forall i j : nat, (i <= j)%nat -> (j <= n)%nat ->
+  sq X rank (Nat.iter j (cp_sweep_norm Rops solve X 0 rank norms modes) st) <= sq X rank (Nat.iter i (cp_sweep_norm Rops solve X 0 rank norms modes) st).
+Proof. exact cp_norm_history_monotone. Qed.
+Print Assumptions C07_cp_norm_history_monotone.
+
 (* (ii'') HALS non-negative CP (non_negative_parafac_hals): the block objective IS the HALS objective.  For every order, rank,
    weights and factor A of mode k:  ||X - [[w; ..A..]]||^2 / 2 + l1 sum(A) + l2 ||A||^2
    = ||X||^2 / 2 + hals_obj(G, B, A') with G = w (.) Hadamard of Grams (.) w and B = MTTKRP' (what the code passes to hals_nnls) *)
@@ -134,6 +171,26 @@ Theorem C07_cp_hals_block_descent : forall (X : tensor R) (w : list R) (facs : l
   cp_pen_obj Rops X w (cp_hals_block Rops X w rank l1 l2 eps n facs k) k l1 l2 rank <= cp_pen_obj Rops X w facs k l1 l2 rank.
 Proof. intros X w facs k rank l1 l2 eps n Hk Hf. exact (cp_hals_block_descent X w facs k rank l1 l2 Hk Hf eps n). Qed.
 Print Assumptions C07_cp_hals_block_descent.
+
+(* whole sweeps of non_negative_parafac_hals: ANY list of blocks, each an exact solve (unconstrained mode, no sparsity on it)
+   or n HALS passes (non-negative mode, its own sparsity coefficient); side conditions (solve certificate / entries >= epsilon)
+   only at the visited states.  The sweep never increases  ||X - [[w; A..]]||^2 / 2 + sum_j sparsity_j * sum(A_j),
+   and the values after 0,1,2,... sweeps are non-increasing *)
+Theorem C07_nn_sweep_descent : forall (X : tensor R) (w : list R) (rank : nat) (l1s : list R) (eps : R)
+  (solve : list (list R) -> list (list R) -> list (list R)) (blocks : list (nat * blockkind)) (facs : list (list (list R))),
+  nn_sweep_ok X w rank l1s eps solve blocks facs ->
+  nn_obj Rops X w (nn_sweep Rops solve X w rank l1s eps blocks facs) l1s rank <= nn_obj Rops X w facs l1s rank.
+Proof. exact nn_sweep_descent. Qed.
+Print Assumptions C07_nn_sweep_descent.
+
+Theorem C07_nn_history_monotone : forall (X : tensor R) (w : list R) (rank : nat) (l1s : list R) (eps : R)
+  (solve : list (list R) -> list (list R) -> list (list R)) (blocks : list (nat * blockkind)) (facs : list (list (list R))) (n : nat),
+  run_ok (list (list (list R))) (nn_sweep Rops solve X w rank l1s eps blocks) (nn_sweep_ok X w rank l1s eps solve blocks) n facs ->
+  forall i j : nat, (i <= j)%nat -> (j <= n)%nat ->
+  nn_obj Rops X w (Nat.iter j (nn_sweep Rops solve X w rank l1s eps blocks) facs) l1s rank
+  <= nn_obj Rops X w (Nat.iter i (nn_sweep Rops solve X w rank l1s eps blocks) facs) l1s rank.
+Proof. exact nn_history_monotone. Qed.
+Print Assumptions C07_nn_history_monotone.
 
 (* HOOI (partial_tucker) and PARAFAC2 (_compute_projections): proved is the algebra for matrices with orthonormal columns;
    the optimality of the SVD answer is a NAMED HYPOTHESIS (Ky Fan's maximum principle / orthogonal Procrustes), hence _partial.
@@ -228,4 +285,23 @@ Proof.
     unfold frob2, mmul, mT, e1. simpl. nra.
   - intros W HW. specialize (HW 0%nat 0%nat ltac:(lia) ltac:(lia)). unfold delta in HW. simpl in HW.
     unfold minner, mmul, mT, e1. simpl. nra.
+Qed.
+
+(* the contract on the norms is satisfiable (constant norm 2 for every column of every mode) *)
+Example C07_normalize_nonvacuous :
+  let X := mk [2;2]%nat [1;2;3;4] in let st := ([1], [[[1];[1]]; [[1];[2]]]) in
+  normalize_ok X 1 (fun _ _ => ([2], [2])) (seq 0 (length (shape X))) (cp_absorb0 Rops (shape X) 1 st).
+Proof.
+  cbv zeta. cbn [shape length seq normalize_ok fst snd].
+  assert (H : forall k (s0 : cpstate), scales_ok (mk [2;2]%nat [1;2;3;4]) 1 [2] [2] k s0).
+  { intros k s0 r Hr. assert (r = 0%nat) by lia; subst r. cbn [nth]. split; [lra | left; reflexivity]. }
+  split; [simpl; lia|]. split; [apply H|]. split; [simpl; lia|]. split; [apply H | exact I].
+Qed.
+
+Example C07_nn_sweep_nonvacuous :
+  let X := mk [2;2]%nat [1;2;3;4] in let facs := [[[1];[1]]; [[1];[2]]] in
+  nn_sweep_ok X [1] 1 [0;0] 0 (fun _ _ : list (list R) => []) [(0%nat, BHals 2)] facs.
+Proof.
+  cbv zeta. split; [|exact I]. split; [simpl; lia|]. split; [simpl; lia|].
+  intros i r Hi Hr. simpl in Hi. assert (r = 0%nat) by lia; subst r. destruct i as [|[|i]]; [| |lia]; vm_compute; lra.
 Qed.
